@@ -22,7 +22,7 @@ impl<W: WorldSpec> Engine<W> {
         let total_cells: u32 = self.ms[wid].ents.values().map(|r| r.cols.len() as u32).sum();
         let panic_at = panic_at.map(|k| if total_cells == 0 { 0 } else { k % (total_cells + 1) });
         // probe from inside Clone::clone: run one access against the world being cloned
-        let probe_result: std::rc::Rc<std::cell::RefCell<Option<(bool, String)>>> = Default::default();
+        let probe_result: std::rc::Rc<std::cell::RefCell<Option<(bool, String, Option<usize>)>>> = Default::default();
         let mut probe_k = None;
         if let Some((k, acc)) = probe {
             if total_cells > 0 {
@@ -31,7 +31,7 @@ impl<W: WorldSpec> Engine<W> {
                 let wp = self.ws[wid].as_ref().unwrap() as *const W as usize;
                 let mp = &self.ms[wid] as *const Model as usize;
                 let pr = probe_result.clone();
-                rt::set_clone_probe(Some(Box::new(move || {
+                rt::set_clone_probe(Some(Box::new(move |ckind: u8, cid: u32| {
                     // SAFETY (harness only): both pointers outlive the clone call that invokes this
                     // callback, and only shared references are formed - the same aliasing a safe
                     // program gets by reaching the world through an Rc from inside Clone::clone.
@@ -40,6 +40,12 @@ impl<W: WorldSpec> Engine<W> {
                     let a = acc.a as usize % W::archs().len();
                     let drv = W::archs()[a];
                     let col = acc.col as usize % drv.info().kinds.len();
+                    // the archetype whose clone is in progress: the one holding the value being cloned
+                    let in_progress: Option<usize> = if kind_has_id(ckind) {
+                        m.ents.values().find(|r| r.cols.iter().any(|c| c.kind == ckind && c.id == cid)).map(|r| r.arch)
+                    } else {
+                        None
+                    };
                     let r = catch(|| match acc.kind {
                         AccKind::BorrowSlice | AccKind::IterBorrow | AccKind::CloneWorld => {
                             let _g = drv.hold_bslice(w, col, acc.m);
@@ -53,8 +59,8 @@ impl<W: WorldSpec> Engine<W> {
                         }
                     });
                     *pr.borrow_mut() = Some(match r {
-                        Ok(()) => (false, String::new()),
-                        Err(c) => (true, c.msg),
+                        Ok(()) => (false, String::new(), in_progress),
+                        Err(c) => (true, c.msg, in_progress),
                     });
                 })));
             }
@@ -70,7 +76,7 @@ impl<W: WorldSpec> Engine<W> {
         rt::h(&[0xC104E, clone_calls as u64, res.is_ok() as u64]);
         self.yields.push((self.step, 1, clone_calls));
         // probe verdict: while archetype X is being cloned all its columns are shared-borrowed
-        if let (Some((_, acc)), Some((panicked, msg))) = (probe, probe_result.borrow().clone()) {
+        if let (Some((_, acc)), Some((panicked, msg, in_progress))) = (probe, probe_result.borrow().clone()) {
             self.stats.inc("clone_probe_ran");
             let borrowish = !panicked || is_borrow_panic(&msg);
             if !borrowish {
@@ -78,11 +84,31 @@ impl<W: WorldSpec> Engine<W> {
             } else if !acc.m && panicked {
                 vio("C11", "spurious-refusal", format!("shared access {:?} from inside Clone::clone was refused: {}", acc, msg));
             }
-            // a mutable access may be granted only if its archetype is not the one being cloned;
-            // which archetype is in progress is not observable from here without assuming clone
-            // order, so the mutable case is checked by the dedicated C11 cells (see DESIGN.md).
-            if acc.m && panicked {
-                self.stats.inc("F6_borrow_conflict_in_clone");
+            // while archetype X is being cloned every column of X has a reader: a mutable access
+            // to X must be refused, one to any other archetype must be granted
+            if acc.m && borrowish {
+                let a = acc.a as usize % W::archs().len();
+                let takes = match acc.kind {
+                    AccKind::FindBorrow | AccKind::BorrowComp => self.ms[wid].archs[a].len > 0,
+                    _ => true,
+                };
+                match in_progress {
+                    Some(x) if x == a && takes => {
+                        if panicked {
+                            self.stats.inc("F6_borrow_conflict_in_clone");
+                        } else {
+                            vio("C11", "aliasing-access-granted", format!("mutable access {:?} from inside Clone::clone of a value of {} was granted while that archetype is being cloned", acc, W::archs()[x].info().name));
+                        }
+                    }
+                    Some(x) if x != a => {
+                        if panicked {
+                            vio("C11", "spurious-refusal", format!("mutable access {:?} from inside Clone::clone of a value of {} (another archetype) was refused: {}", acc, W::archs()[x].info().name, msg));
+                        } else {
+                            self.stats.inc("clone_probe_other_archetype_granted");
+                        }
+                    }
+                    _ => {}
+                }
             }
         }
         match res {
